@@ -20,6 +20,7 @@ multicall, marshalling; stub daemon from harness/c12_world.py):
 """
 import json
 import os
+import re
 import sys
 
 import vlib
@@ -76,7 +77,12 @@ def xml_safe(s):
         for ch in s)
 
 
+_PRIV = re.compile(r'/rd/\d+/')
+
+
 def norm(v):
+    if isinstance(v, str):
+        return _PRIV.sub('/rd/N/', v) if '/rd/' in v else v     # per-world private log directory of the real-dispatcher layout
     if isinstance(v, (tuple, list)):
         return [norm(x) for x in v]
     if isinstance(v, dict):
@@ -309,7 +315,8 @@ CORPUS = [
     ('supervisor.signalProcess', ('g1:p1', 'TERM')), ('supervisor.signalProcess', ('g1:p2', 'HUP')),
     ('supervisor.signalProcess', ('solo', '2')), ('supervisor.signalProcessGroup', ('g2', 'USR2')),
     ('supervisor.signalProcessGroup', ('g1', 'TERM')), ('supervisor.signalAllProcesses', ('15',)),
-    ('supervisor.sendProcessStdin', ('g2:q1', 'x')), ('supervisor.sendProcessStdin', ('g1:p1', u'h\u00e9llo')),
+    ('supervisor.sendProcessStdin', ('g2:q1', 'x')), ('supervisor.sendProcessStdin', ('g1:p1', 'k' * 70000)),
+    ('supervisor.sendProcessStdin', ('g1:p2', u'\u00e9\n')), ('supervisor.sendProcessStdin', ('solo', 'x')), ('supervisor.sendProcessStdin', ('g1:p1', u'h\u00e9llo')),
     ('supervisor.sendRemoteCommEvent', ('type', u'd\u00e4ta')),
     ('supervisor.clearProcessLogs', ('g2:q1',)), ('supervisor.clearProcessLog', ('g1:p1',)), ('supervisor.clearAllProcessLogs', ()),
     ('supervisor.readProcessStdoutLog', ('g1:p1', 0, 14)), ('supervisor.readProcessStdoutLog', ('g1:p1', 0, 15)),
@@ -1331,7 +1338,7 @@ def _run(chk, wd, proved):
                    'process-state layouts x typed argument tuples + wrong arities, each through handler dispatch and full XML path; '
                    'multicall: %d random compositions vs. the same calls issued sequentially; distinct = distinct (answer prefix, '
                    'state-changed) pairs plus distinct (length, polls) multicall shapes'
-                   % (n_split, n_args, 12, n_multi))
+                   % (n_split, n_args, 13, n_multi))
     cov['samples'] = name_meta[5:7] + name_meta[-3:-1] + multi_meta[3:5]
     cells = counters.pop('_cells', set())
     with_name = [m for m in facts['listed'] if m.startswith('supervisor.') and 'name' in live_param_names(facts)[m][:1]
